@@ -231,6 +231,18 @@ def _reads_ifm_one_to_one(op):
     return not any(op.attrs.get("explicit_padding", (0, 0, 0, 0)))
 
 
+def _reads_slice_with_its_shape(op, cons_op):
+    # The consumer must see the output of the split/slice with the shape that is read, a consumer that works on
+    # another view of it (e.g. the flattened shapes of a converted Softmax) cannot apply the read offset itself
+    if op.read_shapes[0] is None:
+        return True
+    if cons_op.ifm == op.ofm:
+        return cons_op.ifm_shapes[0] == op.read_shapes[0]
+    if cons_op.type.is_binary_elementwise_op() and cons_op.ifm2 == op.ofm:
+        return cons_op.ifm_shapes[1] == op.read_shapes[0]
+    return False
+
+
 def remove_SplitSliceRead(op, arch):
 
     if op.type == Op.SplitSliceRead:
@@ -244,6 +256,7 @@ def remove_SplitSliceRead(op, arch):
             and consumer.type != Op.Mul
             and consumer.original_type != Op.Transpose
             and _reads_ifm_one_to_one(consumer)
+            and _reads_slice_with_its_shape(op, consumer)
             for consumer in op.ofm.consumer_list
         ):
             # SplitSliceRead can be performed by tensor consumer(s)
